@@ -41,9 +41,9 @@ CLAIMED = {
             "Partial: the theorem bounds native depth by STACK_BUDGET plus the largest guard-free chain for evaluator, parser and checker (guards added by fix 4fc914f; the pre-fix unguarded recursion is kept as refuted variants); frame sizes are measured, and every recursion shape is run past the budget in debug and release under an 8 MiB stack.",
             "Trusted: Lean kernel, extractor of guard sites; compiled frame sizes are measured, not proved (labelled partial).",
             "DESIGN.md §5 C08"),
-    "C09": (T_PROOF + ": checker model vs declarative well-formedness judgement; probed static type table compared with the documented one by decide; correspondence on diagnostics for well-formed programs and injected single-rule violations",
-            "Theorems relate the resolver model's diagnostics to a declarative WF judgement rule by rule; the type table is probed from the real checker each run and the model's diagnostics are compared with the real ones on generated programs with single-rule violations in every context.",
-            "Trusted: Lean kernel, probe/extractors, harness; listed findings (return-type scope, unchecked literal method arguments) are explicit hypotheses of the partial theorem.",
+    "C09": (T_PROOF + ": checker model vs declarative well-formedness judgement: scoping diagnostics equal the declarative violations for every program (rule, span, order); typing rules proved in step with the specification for every program whose return expressions are well typed (explicit decidable hypothesis excluding the one open finding D-09f); probed operator/builtin/return-type tables compared with the model's and the documented ones by decide; correspondence on diagnostics for well-formed programs and injected single-rule violations",
+            "Theorems relate the resolver model's diagnostics to a declarative WF judgement rule by rule (scoping exactly, typing under ReturnsTyped); the type tables and return-type-inference probes are taken from the real checker each run and the model's diagnostics are compared with the real ones on generated programs with single-rule violations in every context, incl. the composed source-text stream.",
+            "Trusted: Lean kernel, probe/extractors, harness; the full equivalence is refuted by the D-09f witness (open finding: recovery type becomes a result type when return-type rounds do not settle); D-09b is fixed (fc05160) and kept as a pinned variant with a decided falsity witness.",
             "DESIGN.md §5 C09"),
     "C10": (T_PROOF + ": lexer round trip render/lex for all token sequences and all valid separator assignments; parser depends on token kinds only; redundant parentheses erased (Pratt round trip)",
             "Any two valid layouts of one token sequence lex alike (proved for all sequences and layouts), parsing depends only on token kinds, and full parenthesisation parses to the same tree; tied to the code by differential runs and by re-layout differentials on the real interpreter.",
